@@ -326,6 +326,8 @@ static void *t_recycle(void *a)
 	if (x > 0) {
 		if (!vrt_param("no_gp", 0))
 			vrt_spec_synchronize();
+		if (kind == 0)
+			cds_wfs_node_init(&items[x].w);	/* wfstack: the node may be modified once the grace period has passed */
 		do_push((int)x);
 	}
 	return NULL;
